@@ -139,12 +139,15 @@ def profile_stream(rep, drv, r, n):
         cls = RadialProfile if k % 3 else CurveOfGrowth
         # every 4th history: an over-subtracted image (negative everywhere), so that the normalisation constants are negative
         img = -img_pos if k % 4 == 1 else img_pos
+        # every fourth history: the centre lies off the image, so the innermost apertures do not overlap it and their bins are NaN
+        # (the normalisation constants are taken over the finite bins)
+        xycen = (-2.5, 11.7) if k % 4 == 3 else (12.2, 11.7)
         radii = np.arange(0, 9) if cls is RadialProfile else np.arange(1, 9)
 
         def mk():
             with warnings.catch_warnings():
                 warnings.simplefilter('ignore')
-                return cls(img, (12.2, 11.7), radii, error=err)
+                return cls(img, xycen, radii, error=err)
         raw = mk()
         rawv = {'profile': np.array(raw.profile), 'profile_error': np.array(raw.profile_error)}
         nk = 2
